@@ -53,9 +53,9 @@ Lemma take6 a b c d e f s : take 6 (a :: b :: c :: d :: e :: f :: s) = Some ([a;
 Proof. change (a :: b :: c :: d :: e :: f :: s) with ([a; b; c; d; e; f] ++ s). apply (take_app [a; b; c; d; e; f] s). Qed.
 
 (* a data reply with the expected id: exactly the sizeof bytes that followed the header *)
-Lemma apt_ask_ok expect sizeof src dst payload extra rest :
+Lemma apt_ask_ok hc expect sizeof src dst payload extra rest :
   expect < 65536 -> len (payload ++ extra) < 65536 -> len payload = sizeof -> dst < 256 -> src < 256 ->
-  apt_ask false expect sizeof (hdr_data expect (len (payload ++ extra)) dst src ++ (payload ++ extra) ++ rest)
+  apt_ask hc false expect sizeof (hdr_data expect (len (payload ++ extra)) dst src ++ (payload ++ extra) ++ rest)
   = (Ok payload, rest).
 Proof.
   intros He Hl Hs Hd Hsr. unfold hdr_data, le16. cbn [app]. unfold apt_ask. rewrite take6.
@@ -67,9 +67,9 @@ Proof.
 Qed.
 
 (* a data reply with another id is an error, whatever follows *)
-Lemma apt_ask_wrong_id expect sizeof rid n dst src data rest :
+Lemma apt_ask_wrong_id hc expect sizeof rid n dst src data rest :
   expect <> rid -> rid < 65536 -> len data = n -> n < 65536 ->
-  apt_ask false expect sizeof (hdr_data rid n dst src ++ data ++ rest) = (Err EInstr, rest).
+  apt_ask hc false expect sizeof (hdr_data rid n dst src ++ data ++ rest) = (Err EInstr, rest).
 Proof.
   intros NE Hr Hl Hn. unfold hdr_data, le16. cbn [app]. unfold apt_ask. rewrite take6.
   rewrite (N.mod_small rid 65536), (N.mod_small n 65536) by assumption.
@@ -78,8 +78,8 @@ Proof.
 Qed.
 
 (* soundness: data is only ever returned from a reply carrying the expected id *)
-Lemma apt_ask_sound expect sizeof s out rest :
-  apt_ask false expect sizeof s = (Ok out, rest) ->
+Lemma apt_ask_sound hc expect sizeof s out rest :
+  apt_ask hc false expect sizeof s = (Ok out, rest) ->
   exists a b l0 l1 d sr data,
     s = [a; b; l0; l1; d; sr] ++ data ++ rest /\ dec16 a b = expect /\ len data = dec16 l0 l1 /\
     sizeof <= len data /\ out = firstn (N.to_nat sizeof) data.
@@ -95,15 +95,30 @@ Proof.
 Qed.
 
 Lemma apt_ask_header_only expect sizeof a b c d e f rest :
-  apt_ask true expect sizeof (a :: b :: c :: d :: e :: f :: rest) = (Ok [a; b; c; d; e; f], rest).
+  apt_ask false true expect sizeof (a :: b :: c :: d :: e :: f :: rest) = (Ok [a; b; c; d; e; f], rest).
 Proof. unfold apt_ask. rewrite take6. reflexivity. Qed.
 
-(* HEADER_ONLY packet types: what ask checks is exactly that six bytes arrive -- the message id in
-   them is NOT compared with the expected one (callers have to look at message_id themselves) *)
+(* HEADER_ONLY packet types.  With ho_check = false (the code as pinned) ask checks exactly that six
+   bytes arrive -- the message id in them is NOT compared with the expected one; with ho_check = true
+   (an implementation that does compare) a different id is an error and a matching one is returned.
+   In both cases whatever is returned is exactly the six header bytes the device sent. *)
 Lemma apt_ask_header_only_spec expect sizeof s :
-  apt_ask true expect sizeof s =
+  apt_ask false true expect sizeof s =
     match take 6 s with None => (Err ETimeout, s) | Some (h, r) => (Ok h, r) end.
 Proof. unfold apt_ask. destruct (take 6 s) as [[h r]|]; reflexivity. Qed.
 
-Lemma apt_ask_header_only_id_unchecked e1 e2 z1 z2 s : apt_ask true e1 z1 s = apt_ask true e2 z2 s.
+Lemma apt_ask_header_only_id_unchecked e1 e2 z1 z2 s : apt_ask false true e1 z1 s = apt_ask false true e2 z2 s.
 Proof. rewrite !apt_ask_header_only_spec. reflexivity. Qed.
+
+Lemma apt_ask_header_only_checked expect sizeof a b c d e f rest :
+  apt_ask true true expect sizeof (a :: b :: c :: d :: e :: f :: rest) =
+    if expect =? dec16 a b then (Ok [a; b; c; d; e; f], rest) else (Err EInstr, rest).
+Proof. unfold apt_ask. rewrite take6. cbn [andb hdr_id]. destruct (expect =? dec16 a b); reflexivity. Qed.
+
+Lemma apt_ask_header_only_sound hc expect sizeof s out rest :
+  apt_ask hc true expect sizeof s = (Ok out, rest) -> s = out ++ rest /\ length out = 6%nat.
+Proof.
+  unfold apt_ask. destruct (take 6 s) as [[h r]|] eqn:T; [|discriminate].
+  apply take_spec in T. destruct T as [-> L]. destruct (hc && _); [discriminate|].
+  intro H. injection H as <- <-. split; [reflexivity|]. unfold len in L. lia.
+Qed.
